@@ -186,6 +186,84 @@ try:
                         verdict(True, "a fault while discarding replaced content left the metadata describing the OLD layout while the files show the new one",
                                 input=dict(format=fmt, failing_deletion=k, of=n_del), witness_class=wc,
                                 observed="versioned %s" % now[1], expected="versioned %s" % after_ok[1])
+    # the same for every transform of up to two operations from a menu (the C14 menu), on 2a trees: a rename fault at each position
+    import itertools as _it
+
+    def m_rename_a(tt): tt.adjust_path("a2", tt.root, tt.trans_id_tree_path("a"))
+    def m_move_x_into_d(tt): tt.adjust_path("x", tt.trans_id_tree_path("d"), tt.trans_id_tree_path("x"))
+    def m_delete_a(tt):
+        t_ = tt.trans_id_tree_path("a"); tt.delete_contents(t_); tt.unversion_file(t_)
+    def m_new_file_n(tt): tt.new_file("n", tt.root, [b"N\n"], b"n2-id")
+    def m_rename_d(tt): tt.adjust_path("e", tt.root, tt.trans_id_tree_path("d"))
+    def m_replace_k(tt):
+        t_ = tt.trans_id_tree_path("k"); tt.delete_contents(t_); tt.create_file([b"K2\n"], t_)
+    def m_replace_a(tt):
+        t_ = tt.trans_id_tree_path("a"); tt.delete_contents(t_); tt.create_file([b"A2\n"], t_)
+    def m_new_dir_in_d(tt): tt.new_directory("sub", tt.trans_id_tree_path("d"), b"sub-id")
+    def m_move_f_up(tt): tt.adjust_path("f", tt.root, tt.trans_id_tree_path("d/f"))
+    def m_delete_d_and_f(tt):
+        for p_ in ("d/f", "d"):
+            t_ = tt.trans_id_tree_path(p_); tt.delete_contents(t_); tt.unversion_file(t_)
+    def m_new_file_z(tt): tt.new_file("z", tt.root, [b"Z\n"], b"z-id")
+    menu = [m_rename_a, m_move_x_into_d, m_delete_a, m_new_file_n, m_rename_d, m_replace_k, m_replace_a, m_new_dir_in_d, m_move_f_up,
+            m_delete_d_and_f, m_new_file_z]
+    max_ops = 2 if req.get("tier", "quick") == "quick" else 3
+    n_menu = 0
+    for k_ in range(1, max_ops + 1):
+        for ops in _it.combinations(menu, k_):
+            names = [o_.__name__[2:] for o_ in ops]
+            # count the renames of the undisturbed apply
+            d, wt = new_tree("menu_c%d" % n_menu, "2a"); n_menu += 1
+            probe = FaultyOS(0)
+            real_os = T.os
+            T.os = probe
+            ok_plain = True
+            try:
+                tt = wt.transform()
+                try:
+                    for o_ in ops:
+                        o_(tt)
+                    tt.apply()
+                except Exception:  # noqa  (malformed / misuse: not a case here)
+                    ok_plain = False
+                    tt.finalize()
+            finally:
+                T.os = real_os
+            shutil.rmtree(d, ignore_errors=True)
+            if not ok_plain:
+                continue
+            for k in range(1, probe.n + 1):
+                tried += 1
+                d, wt = new_tree("menu_%d" % tried, "2a")
+                before = snapshot(d), versioned(wt)
+                T.os = FaultyOS(k)
+                raised = None
+                try:
+                    tt = wt.transform()
+                    try:
+                        for o_ in ops:
+                            o_(tt)
+                        try:
+                            tt.apply()
+                        except BaseException as e:  # noqa
+                            raised = e
+                    finally:
+                        T.os = real_os
+                        try:
+                            tt.finalize()
+                        except BaseException:  # noqa
+                            pass
+                finally:
+                    T.os = real_os
+                now = snapshot(d), versioned(wt)
+                shutil.rmtree(d, ignore_errors=True)
+                if raised is None:
+                    continue
+                if now != before:
+                    verdict(True, "a rename fault before the commit point did not restore the tree exactly",
+                            input=dict(format="2a", operations=names, failing_rename=k, of=probe.n),
+                            observed=str((sorted(p_ for p_ in set(now[0]) ^ set(before[0])), [p_ for p_ in now[0] if p_ in before[0] and now[0][p_] != before[0][p_]], now[1])),
+                            expected=str(before[1]))
     verdict(False, "no failing fault placement among %d" % tried)
 finally:
     shutil.rmtree(base, ignore_errors=True)
